@@ -4,20 +4,28 @@ import QProofs.C13Gen
 # C13 — property theorems: results depend only on arguments (state machines of QModel.C13)
 
 Every theorem quantifies over *all* histories (lists of calls of any length) unless its doc comment says
-"concrete witness". Clauses of the property:
+"concrete witness". Clauses of the property and what carries them:
 
-* "whether cached tables of a composite system have been built, dropped or rebuilt" → (a) `cache_*`
-* "whatever datasets a loss function or algorithm object processed earlier" → (b) `loss_*`, `gen_*`, `fast_*`,
-  (c) `algo_*`. After the `fix:` commits the extended weights of the fast loss follow its weights, so the fast loss
-  behaves exactly like the generic one. For every mode `_set_weights_by_mode` handles, re-use now equals fresh use after any
-  history (`*_reuse_refines_fresh`); a mode without a branch keeps the earlier weights (stated explicitly, with a
-  witness). Still **false on the tree**: the algorithm object keeps its first projection (D10) — exact characterisation
-  `algo_reuse_eq_fresh_iff` and a proved negation witness;
-* "global tolerance changes that are restored" → (d) `atol_*`
-* "no operation changes … its operands" → (e) `projEq_arg_unchanged` (the routine that used to write through views of
-  its argument, repaired); the rest of that clause is observed on the implementation by snapshots.
+* "whether cached tables of a composite system have been built, dropped or rebuilt" → (a) `cache_*`, tied to the source by
+  the regenerated getter / builder / delete tables (`gen_cache_*`, `gen_getters_*`, `gen_deletes_*`).
+* "whatever datasets a loss function or algorithm object processed earlier" → (b) `loss_*`, `gen_reuse_refines_fresh`,
+  `fast_reuse_refines_fresh` (unconditional: every mode string an option constructor accepts has a branch that installs
+  weights depending on the current call only — `gen_modes_handled`, about the regenerated branch tables); the fast loss
+  *reads the same attributes* as the generic one (`fast_obs_eq_gen`; that the two value formulas agree on equal attributes
+  is C12's theorem, not restated here). (c) `algo_*`: **false on the tree** — the algorithm object keeps its first
+  projection (D10): exact characterisation `algo_reuse_eq_fresh_iff` and a proved negation witness.
+* "global tolerance changes that are restored" → (d) `atol_*`: bookkeeping of the one global variable (what *captures* the
+  tolerance is stated by `ctorEps_*`; captured values are arguments of the objects that hold them).
+* "no operation changes … its operands" → (e) `projEq_*`, conditional on the aliasing bit the translator reads off
+  `convert_var_to_hss` (`gen_projEq_arg_unchanged` discharges it for the current source; `projEq_arg_overwritten_of_view`
+  is the mutated-argument statement for the other value of the bit), and (g) `gen_param_writes_declared` etc.
+* NOT carried by any Lean theorem (observed on the implementation by the history fuzzer's fresh-world differential and
+  byte snapshots only): copies are independent of their originals, matrix bases cannot be modified, queries / conversions
+  / projections / compose / tensor do not change their operands and give fresh-object results, and all *interleavings* of
+  the five machines on a shared pool (the machines below are single-object).
 -/
 namespace QM.C13
+
 
 /-! ## (a) caches -/
 
@@ -79,12 +87,10 @@ theorem loss_fields_current (s : Loss A Q W) (c : Cfg A Q W) :
     (configure s c).option = some (c.mode, c.optWeights) := by
   rw [configure_eq]; exact ⟨rfl, rfl, rfl⟩
 
-/-- C13.b: the weights after a call. Every mode `_set_weights_by_mode` has a branch for installs weights that depend on
-this call only (`identity` resets them to `None`); **a mode without a branch (`Mode.ignored`: the accepted
-`unbiased_inverse_covariance`, or `None`) leaves the weights of the earlier call in place.** -/
+/-- C13.b: the weights after a call depend on this call only (`identity` resets them to `None`). -/
 theorem loss_weights_after (s : Loss A Q W) (c : Cfg A Q W) :
     (configure s c).weights = match c.mode with
-      | .identity => none | .custom => c.optWeights | .invCov => some c.dataW | .ignored => s.weights := by
+      | .identity => none | .custom => c.optWeights | .invCov => some c.dataW := by
   simp only [configure_eq]
   cases c.mode <;> rfl
 
@@ -94,46 +100,36 @@ theorem fast_ext_follows_weights (s : Loss A Q W) (c : Cfg A Q W) :
     (configure s c).ext = (configure s c).weights := by
   simp only [configure_eq]
 
-/-- C13.b: hence the fast loss reads exactly what the generic loss reads. -/
+/-- C13.b: hence the fast loss reads the same attribute values as the generic loss (that equal attributes give equal
+values is a statement about the two value formulas: C12). -/
 theorem fast_obs_eq_gen (s : Loss A Q W) (c : Cfg A Q W) : obsFast (configure s c) = obsGen (configure s c) := by
   simp only [obsFast, obsGen, fast_ext_follows_weights]
 
-/-- the modes `_set_weights_by_mode` handles -/
-def Handled (m : Mode) : Prop := m = .identity ∨ m = .custom ∨ m = .invCov
-
-/-- C13.b `gen_reuse_refines_fresh`: for every handled mode (identity, custom, inverse covariance) the generic loss
-reads, after **any** earlier state of the object, exactly what a fresh object reads. -/
-theorem gen_reuse_refines_fresh (s : Loss A Q W) (c : Cfg A Q W) (hm : Handled c.mode) :
+/-- C13.b `gen_reuse_refines_fresh`: after **any** earlier state of the object the generic loss reads exactly what a
+fresh object reads — for every mode. -/
+theorem gen_reuse_refines_fresh (s : Loss A Q W) (c : Cfg A Q W) :
     obsGen (configure s c) = obsGen (configure Loss.fresh c) := by
   simp only [obsGen, configure_eq]
-  rcases hm with hm | hm | hm <;> simp [hm]
 
 /-- C13.b `fast_reuse_refines_fresh`: the same for the fast loss. -/
-theorem fast_reuse_refines_fresh (s : Loss A Q W) (c : Cfg A Q W) (hm : Handled c.mode) :
+theorem fast_reuse_refines_fresh (s : Loss A Q W) (c : Cfg A Q W) :
     obsFast (configure s c) = obsFast (configure Loss.fresh c) := by
   rw [fast_obs_eq_gen, fast_obs_eq_gen]
-  exact gen_reuse_refines_fresh s c hm
+  exact gen_reuse_refines_fresh s c
 
-/-- C13.b `reuse_refines_fresh` over whole histories: after any list of earlier datasets (of any modes, handled or not),
-the next dataset with a handled mode is read as by a fresh object — by both losses. -/
-theorem reuse_refines_fresh_history (h : List (Cfg A Q W)) (c : Cfg A Q W) (hm : Handled c.mode) :
-    obsGen (configure (lrun Loss.fresh h) c) = obsGen (configure Loss.fresh c) ∧
-    obsFast (configure (lrun Loss.fresh h) c) = obsFast (configure Loss.fresh c) :=
-  ⟨gen_reuse_refines_fresh _ c hm, fast_reuse_refines_fresh _ c hm⟩
+/-- C13.b `reuse_refines_fresh` over whole histories: after any list of earlier datasets of any modes the next dataset is
+read as by a fresh object — by both losses, and from any constructor weights. -/
+theorem reuse_refines_fresh_history (s₀ : Loss A Q W) (h : List (Cfg A Q W)) (c : Cfg A Q W) :
+    obsGen (configure (lrun s₀ h) c) = obsGen (configure Loss.fresh c) ∧
+    obsFast (configure (lrun s₀ h) c) = obsFast (configure Loss.fresh c) :=
+  ⟨gen_reuse_refines_fresh _ c, fast_reuse_refines_fresh _ c⟩
 
 /-- C13.b: what a dataset is valued with: the weights of its own mode (none for identity), whatever came before. -/
-theorem fast_uses_current_dataset_weights (s : Loss A Q W) (c : Cfg A Q W) (hm : Handled c.mode) :
+theorem fast_uses_current_dataset_weights (s : Loss A Q W) (c : Cfg A Q W) :
     obsFast (configure s c) = (some c.matA, some c.q,
-      match c.mode with | .custom => c.optWeights | .invCov => some c.dataW | _ => none) := by
+      match c.mode with | .identity => none | .custom => c.optWeights | .invCov => some c.dataW) := by
   simp only [obsFast, configure_eq]
-  rcases hm with hm | hm | hm <;> simp [hm]
-
-/-- C13.b `unhandled_mode_keeps_weights` (stated explicitly): with a mode that has no branch, both losses read the
-weights the object held before the call — re-use equals fresh use only if there were none. -/
-theorem unhandled_mode_keeps_weights (s : Loss A Q W) (c : Cfg A Q W) (hm : c.mode = .ignored) :
-    obsGen (configure s c) = (some c.matA, some c.q, s.weights) ∧
-    obsFast (configure s c) = (some c.matA, some c.q, s.weights) := by
-  simp [obsGen, obsFast, configure_eq, hm]
+  cases c.mode <;> rfl
 
 end loss
 
@@ -144,8 +140,6 @@ def witnessCustom : Cfg (List (List Int) × List Int) (List Int) (List (List (Li
     dataW := [], gradReq := true }
 def witnessIdentity : Cfg (List (List Int) × List Int) (List Int) (List (List (List Int))) :=
   { witnessCustom with mode := .identity, optWeights := none }
-def witnessUnhandled : Cfg (List (List Int) × List Int) (List Int) (List (List (List Int))) :=
-  { witnessCustom with mode := .ignored, optWeights := none }
 
 /-- non-vacuity / the former counter-example: the identity dataset after the custom one is valued 5 by the re-used
 objects, as by fresh ones (it used to be 9, with the custom weights of the first dataset) -/
@@ -154,18 +148,6 @@ example : valueFast 2 (configure (lrun Loss.fresh [witnessCustom]) witnessIdenti
     ∧ valueFast 2 (configure Loss.fresh witnessIdentity) [-1] = some 5
     ∧ valueFast 2 (configure Loss.fresh witnessCustom) [-1] = some 9
     ∧ valueGen 2 (configure Loss.fresh witnessCustom) [-1] = some 9 := by decide
-
-/-- C13.b negation witness (concrete) for the unhandled mode only: `reuse_refines_fresh` without the `Handled` hypothesis
-is false — a dataset configured with a mode that has no branch is valued 9 after the custom dataset and 5 by a fresh
-object. -/
-theorem reuse_refines_fresh_unhandled_fails :
-    ¬ ∀ (h : List (Cfg (List (List Int) × List Int) (List Int) (List (List (List Int)))))
-        (c : Cfg (List (List Int) × List Int) (List Int) (List (List (List Int)))) (var : List Int),
-        valueGen 2 (configure (lrun Loss.fresh h) c) var = valueGen 2 (configure Loss.fresh c) var := by
-  intro hall
-  have := hall [witnessCustom] witnessUnhandled [-1]
-  revert this
-  decide
 
 /-! ## (c) algorithm object -/
 
@@ -211,9 +193,11 @@ theorem algo_reuse_refines_fresh_fails :
   revert this
   decide
 
-/-- non-vacuity: three calls asking for the same projection on the same tomography -/
-example : ∀ d ∈ [((0 : Nat), (⟨true, true, false, some 20⟩ : AlgoOpt)), (0, ⟨true, true, false, some 20⟩)],
-    projOf d.1 d.2 = projOf (0 : Nat) ⟨true, true, false, some 20⟩ := by decide
+/-- the positive direction of `algo_reuse_eq_fresh_iff` instantiated: two earlier calls, the first asking for the same
+projection as the current one (the second for another one) -/
+example : setConstraint (arun Algo.fresh [((0 : Nat), (⟨true, true, false, some 20⟩ : AlgoOpt)), (1, ⟨false, true, false, none⟩)])
+    (0, ⟨true, true, false, some 20⟩) = setConstraint Algo.fresh (0, ⟨true, true, false, some 20⟩) := by
+  rw [algo_reuse_eq_fresh_iff]
 
 /-- C13.c: a projection handed to the constructor is never replaced (the documented use of the constructor argument). -/
 theorem algo_ctor_proj_kept {QT : Type} (p : Proj QT) (q : Option QT) (h : List (QT × AlgoOpt)) :
@@ -258,6 +242,13 @@ at construction time (with `None` or `0` it takes `atol/10` — an argument of t
 theorem ctorEps_explicit (a₁ a₂ e : Rat) (he : e ≠ 0) : ctorEps a₁ (some e) = ctorEps a₂ (some e) := by
   simp [ctorEps, he]
 
+/-- C13.d (the exception, stated explicitly): with `eps_proj_physical` `None` or `0` the constructor *captures* the
+global tolerance of the moment — an object built inside a bracket keeps the body's tolerance / 10. -/
+theorem ctorEps_default_captures (a : Rat) : ctorEps a none = a / 10 ∧ ctorEps a (some 0) = a / 10 := by
+  simp [ctorEps]
+
+example : ctorEps (1/1000) none ≠ ctorEps (1/10000000000000) none := by decide +kernel
+
 example : Bal (1/10) (bracket (1/10) (1/2) [.read, .setBad] ++ [.read]) :=
   .bracket _ _ _ _ (.read _ _ (.nil _))
 
@@ -266,18 +257,33 @@ example : Bal (1/10) (bracket (1/10) (1/2) [.read, .setBad] ++ [.read]) :=
 section projeq
 variable {K : Type} [Add K] [Mul K] [Sub K] [Zero K] [One K]
 
-/-- C13.e `projEq_arg_unchanged`: the routine works on new arrays for both values of `on_para_eq_constraint`; its
-argument is untouched. -/
-theorem projEq_arg_unchanged (n m : Nat) (invm : K) (flag : Bool) (var : List K) :
-    (projEqWithVar n m invm flag var).2 = var := by
-  cases flag <;> simp [projEqWithVar, varToHss]
+/-- the aliasing bit of the branch taken -/
+def aliasBit (alias : Bool × Bool) (flag : Bool) : Bool := if flag then alias.1 else alias.2
+
+/-- C13.e `projEq_arg_unchanged_of_copy`: if `convert_var_to_hss` hands back copies in the branch taken, the argument of
+`calc_proj_eq_constraint_with_var` is untouched. -/
+theorem projEq_arg_unchanged_of_copy (alias : Bool × Bool) (n m : Nat) (invm : K) (flag : Bool) (var : List K)
+    (h : aliasBit alias flag = false) : (projEqWithVar alias n m invm flag var).2 = var := by
+  cases flag <;> simp_all [projEqWithVar, varToHss, aliasBit]
+
+/-- C13.e `projEq_arg_overwritten_of_view` (the defect D5 as a statement about the other value of the bit): if the
+matrices are views of the argument, the in-place row correction writes through them — without the flag the argument
+array afterwards holds exactly the returned variables. -/
+theorem projEq_arg_overwritten_of_view (alias : Bool × Bool) (n m : Nat) (invm : K) (var : List K)
+    (h : alias.2 = true) :
+    (projEqWithVar alias n m invm false var).2 = (projEqWithVar alias n m invm false var).1 := by
+  simp [projEqWithVar, varToHss, hssToVar, h]
 
 end projeq
 
-/-- a 1-qubit shaped instance (n = dim² = 4, two outcomes) at `Rat`: the result is the projected matrices, the argument
-stays as it was -/
-example : projEqWithVar 2 2 ((1 : Rat) / 2) false [1, 2, 3, 4, 5, 6, 7, 8]
-    = ([-3/2, -2, 3, 4, 5/2, 2, 7, 8], [1, 2, 3, 4, 5, 6, 7, 8]) := by
+/-- mutated-argument witness (concrete, `Rat`, n = dim² = 4 with one outcome… kept small: n = 2, two outcomes): with the
+aliasing bit set the argument is overwritten by the projected rows; with the bits the translator generates from the
+current source it is not. -/
+example : (projEqWithVar (false, true) 2 2 ((1 : Rat) / 2) false [1, 2, 3, 4, 5, 6, 7, 8]).2 = [-3/2, -2, 3, 4, 5/2, 2, 7, 8]
+    ∧ projEqWithVar (QGen.C13.hssAliasFlagTrue, QGen.C13.hssAliasFlagFalse) 2 2 ((1 : Rat) / 2) false [1, 2, 3, 4, 5, 6, 7, 8]
+      = ([-3/2, -2, 3, 4, 5/2, 2, 7, 8], [1, 2, 3, 4, 5, 6, 7, 8])
+    ∧ (projEqWithVar (QGen.C13.hssAliasFlagTrue, QGen.C13.hssAliasFlagFalse) 2 2 ((1 : Rat) / 2) true [1, 2, 3, 4, 7, 8]).2
+      = [1, 2, 3, 4, 7, 8] := by
   decide +kernel
 
 /-! ## (g) the attribute discipline the state machines assume, proved about tables REGENERATED from the source
@@ -331,9 +337,35 @@ apart from three functions that re-bind the name to a copy before writing. -/
 theorem gen_param_writes_declared :
     paramWrites.all (fun e => declaredParamWriters.contains (e.1, e.2.1)) = true := by decide
 
+/-- C13.g `gen_projEq_arg_unchanged`: the bits the translator reads off the current `convert_var_to_hss` say "copy" in both
+branches, so `calc_proj_eq_constraint_with_var` (as the driver executes it, with these bits) leaves its argument alone for
+both values of `on_para_eq_constraint`. Reverting the copy flips a bit and breaks this theorem. -/
+theorem gen_projEq_arg_unchanged {K : Type} [Add K] [Mul K] [Sub K] [Zero K] [One K]
+    (n m : Nat) (invm : K) (flag : Bool) (var : List K) :
+    (projEqWithVar (hssAliasFlagTrue, hssAliasFlagFalse) n m invm flag var).2 = var :=
+  projEq_arg_unchanged_of_copy _ n m invm flag var (by cases flag <;> decide)
+
+/-- C13.g `gen_modes_handled`: every mode string the two option constructors accept has a branch in the regenerated
+`_set_weights_by_mode` chain, that branch is not `pass`, and it performs the action of the model's `lstep` for the mode
+the driver resolves the string to; the fast losses do not override `_set_weights_by_mode`. So the `Mode` of the model
+covers all accepted inputs and `*_reuse_refines_fresh` need no side condition. -/
+theorem gen_modes_handled :
+    wseAccepted.all (modeHandled wseBranches) = true ∧ wreAccepted.all (modeHandled wreBranches) = true ∧
+    (objMethods.filter (fun e => e.1 == "StandardQTomographyBasedWeightedProbabilityBasedSquaredError"
+        || e.1 == "StandardQTomographyBasedWeightedRelativeEntropy")).map
+      (fun e => e.2.contains "_set_weights_by_mode") = [false, false] := by decide
+
+/-- C13.g `gen_loss_wiring`: the setter calls of `set_from_standard_qtomography_option_data`, in source order and with their
+guards, are the model's `cfgOps` (the Hessian setter, which no modelled algorithm requests, omitted). -/
+theorem gen_loss_wiring {A Q W : Type} (c : Cfg A Q W) (hg : c.gradReq = true) :
+    (cfgOps c).map LOp.name = lossWiring.filter (fun e => e.2 != "is_hessian_required") := by
+  simp [cfgOps, hg, LOp.name]; decide
+
 /-- C13.g `gen_cache_follows_source`: for the fast losses, every method (own or inherited, resolved along the generated
-base-class table, self-calls and `super()` calls followed) that binds a source attribute also binds the cache derived
-from it: `_weight_matrices → _extend_weight_matrix`, `_prob_dists_q → _prob_dists_q_flat`, `_weights → _extend_weights`. -/
+base-class table; self-calls and `super()` calls followed in evaluation order; the closure has to be *defined*: no missing
+class or method, no exhausted call depth) that binds a source attribute also binds the cache derived from it —
+`_weight_matrices → _extend_weight_matrix` and `_weights → _extend_weights` **after** the source (they are recomputed from
+the attribute), `_prob_dists_q → _prob_dists_q_flat` (computed from the same argument). -/
 theorem gen_cache_follows_source : derivedCaches.all cacheFollows = true := by decide
 
 /-- C13.g: `set_constraint_from_standard_qt_and_option` has the shape the algorithm machine mirrors: `_qt` is assigned
@@ -341,16 +373,25 @@ first, then `if self._func_proj is not None: return`, then an if / elif / else c
 those of `projOf`. -/
 theorem gen_pgd_shape (qt : Nat) (onEq onIneq ie : Bool) (mi : Option Nat) :
     pgdPre = ["_qt"] ∧ pgdGuard = "_func_proj" ∧
+    (pgdBranches.head?.map (·.2.2) = some ["max_iteration", "mode_proj_order", "on_para_eq_constraint"]) ∧
     genFactory onEq onIneq = some (factoryName (projOf qt ⟨onEq, onIneq, ie, mi⟩)) := by
-  refine ⟨by decide, by decide, ?_⟩
+  refine ⟨by decide, by decide, by decide, ?_⟩
   cases onEq <;> cases onIneq <;> simp [projOf, factoryName] <;> decide
 
 /-- non-vacuity: the tables are not empty, and the closure does follow a `super()` call and a self-call
 (`set_weight_matrices` of the fast loss binds both the weights and the extended weights) -/
 example : csGetters.length = 9 ∧ csDeletes.length = 8 ∧ 40 < objWriters.length ∧
-    effWrites "StandardQTomographyBasedWeightedProbabilityBasedSquaredError" 6
-      (mro 8 "StandardQTomographyBasedWeightedProbabilityBasedSquaredError") "set_weight_matrices"
-      = ["_extend_weight_matrix", "_weight_matrices"] := by decide
+    (mro 8 "StandardQTomographyBasedWeightedProbabilityBasedSquaredError").map (·.length) = some 4 ∧
+    ((mro 8 "StandardQTomographyBasedWeightedProbabilityBasedSquaredError").bind fun full =>
+      effWrites "StandardQTomographyBasedWeightedProbabilityBasedSquaredError" full 8 full "set_weight_matrices")
+      = some ["_weight_matrices", "_extend_weight_matrix"] := by decide
+
+/-- the order matters, and a cut-off closure is rejected: `cacheFollows` is false on a class the tables do not know -/
+example : lastIdx "_weight_matrices" ["_extend_weight_matrix", "_weight_matrices"] = some 1 ∧
+    lastIdx "_extend_weight_matrix" ["_extend_weight_matrix", "_weight_matrices"] = some 0 ∧
+    cacheFollows ("NoSuchClass", "_a", "_b", true) = false ∧
+    effWrites "StandardQTomographyBasedWeightedRelativeEntropy" ["StandardQTomographyBasedWeightedRelativeEntropy"] 0
+      ["StandardQTomographyBasedWeightedRelativeEntropy"] "set_weights" = none := by decide
 
 end generated
 
